@@ -1,7 +1,8 @@
 (* C11: I/O wrapper around the extracted model (gen_model.ml, from coq/Fd/Table.v + coq/Fd/History.v).
    No logic of its own beyond parsing the history line and printing [observe].
    stdin line = operations separated by ';' (same syntax as harness/src/bin/c11.rs; shape letters and
-   the ":big" suffix are for the harness only and ignored here):
+   the ":big" suffix, and the byte-order marks "Bb" / "I..:b" are for the harness only and ignored here: the model's
+   indices are numbers):
      O            Open                      K<c>  CallerClose c        W<c>  Wrap c        B  NewBody
      P<b>:<shape>:<items>   Push b items    items = comma separated  h<n> | r<n> | x   ("-" = none)
      R<b>  Reset    D<b>  DropBody    S<b>  Send    I<cs>:<idxs>  Inject (comma separated, "-" = none)
@@ -48,7 +49,7 @@ let parse_op s =
   | 'D' -> DropBody (nat1 ())
   | 'S' -> (match split ':' arg with b :: _ -> Send (nat_of_int (num b)) | [] -> failwith "send")
   | 'I' -> (match split ':' arg with
-            | [cs; idxs] -> Inject (list_of cs (fun x -> nat_of_int (num x)), list_of idxs (fun x -> n_of_int (num x)))
+            | cs :: idxs :: _ -> Inject (list_of cs (fun x -> nat_of_int (num x)), list_of idxs (fun x -> n_of_int (num x)))
             | _ -> failwith "inject")
   | 'V' -> Recv
   | 'U' -> (match split ':' arg with [b; i] -> Unmarshal (nat_of_int (num b), n_of_int (num i)) | _ -> failwith "unmarshal")
